@@ -449,7 +449,11 @@ func describeVal(e *Engine, v ssa.Value, depth int) string {
 		}
 		s += ":"
 		if x.High != nil {
-			s += describeVal(e, x.High, depth+1)
+			hs := describeVal(e, x.High, depth+1)
+			// x[a:len(x)] is x[a:]
+			if !canonNames || hs != "len("+describeVal(e, x.X, depth+1)+")" {
+				s += hs
+			}
 		}
 		return s + "]"
 	case *ssa.Lookup:
@@ -946,6 +950,14 @@ func (a *Audit) indexSite(fn *ssa.Function, b *ssa.BasicBlock, in ssa.Instructio
 	}
 	okLo, whyLo := a.e.proveGE0(idx, b)
 	okHi, whyHi := a.e.proveLE(idx, 0, lt, ltOff-1, b)
+	if !okHi && okLo {
+		// the result of Find(String)Submatch on a constant pattern is nil or has 1+NumSubexp elements
+		if n, ok := a.w.submatchLen(x); ok {
+			if k, isK := idx.(*ssa.Const); isK && k.Value != nil && k.Value.Kind() == constant.Int && k.Int64() < int64(n) && !a.valueMayBeNil(x, b, map[*ssa.Function]bool{}, 0) {
+				okHi, whyHi = true, fmt.Sprintf("a non-nil result of the pattern's Submatch has %d elements", n)
+			}
+		}
+	}
 	if okLo && okHi {
 		a.site(fn, "index", construct, instrPos(in), true, "0 <= index: "+whyLo+"; index < len: "+whyHi)
 		return
@@ -1005,6 +1017,28 @@ func (a *Audit) sliceSite(fn *ssa.Function, b *ssa.BasicBlock, in *ssa.Slice) {
 	lt := a.lenTermOf(in.X)
 	var problems []string
 	var reasons []string
+	// s[:strings.LastIndex(s, sep)] and s[strings.LastIndex(s, sep)+1:] - facts about the standard library:
+	// -1 <= LastIndex(s, sep) <= len(s)-len(sep); and a runtime function name always contains a dot
+	if isStringVal(in.X) {
+		if in.Low == nil && in.High != nil {
+			if s, sep, ok := lastIndexOf(in.High); ok && sameStringValue(s, in.X) {
+				if sep == "." && a.funcNameDerived(s, 0) {
+					a.site(fn, "slice", construct, instrPos(in), true, "LastIndex(s, \".\") of a runtime function name (always package-qualified) is >= 0 and <= len(s)")
+					return
+				}
+			}
+		}
+		if in.High == nil && in.Low != nil {
+			if bo, ok := in.Low.(*ssa.BinOp); ok && bo.Op == token.ADD {
+				if k, isK := bo.Y.(*ssa.Const); isK && k.Value != nil && k.Value.Kind() == constant.Int {
+					if s, sep, ok := lastIndexOf(bo.X); ok && sameStringValue(s, in.X) && k.Int64() >= 1 && k.Int64() <= int64(len(sep)) {
+						a.site(fn, "slice", construct, instrPos(in), true, "-1 <= LastIndex(s, sep) <= len(s)-len(sep), so 0 <= LastIndex+k <= len(s) for 1 <= k <= len(sep)")
+						return
+					}
+				}
+			}
+		}
+	}
 	// low: 0 <= low ; low <= high (or len)
 	if in.Low != nil {
 		if ok, why := a.e.proveGE0(in.Low, b); !ok {
@@ -1068,4 +1102,146 @@ func (a *Audit) unusedExemptions() {
 	for _, k := range keys {
 		a.r.addRaw(a.rule+".exemption", "-", k, "-", "info", "exemption not needed on this tree (construct absent or discharged by a guard)")
 	}
+}
+
+
+// lastIndexOf: v is strings.LastIndex(s, "sep") / strings.Index(s, "sep") with a constant separator.
+func lastIndexOf(v ssa.Value) (ssa.Value, string, bool) {
+	c, ok := v.(*ssa.Call)
+	if !ok || !isStringsFn(c, "LastIndex") {
+		return nil, "", false
+	}
+	sep, ok := constString(c.Call.Args[1])
+	if !ok || sep == "" {
+		return nil, "", false
+	}
+	return c.Call.Args[0], sep, true
+}
+
+// sameStringValue: a and b are the same value: the same register, or two loads of one local variable with no
+// assignment that could run between them.
+func sameStringValue(a, b ssa.Value) bool {
+	if a == b {
+		return true
+	}
+	la, ok1 := a.(*ssa.UnOp)
+	lb, ok2 := b.(*ssa.UnOp)
+	if !ok1 || !ok2 || la.Op != token.MUL || lb.Op != token.MUL {
+		return false
+	}
+	ca, cb := cellOf(la.X), cellOf(lb.X)
+	if ca == nil || ca != cb {
+		return false
+	}
+	_, ok := reachingStore(la)
+	if !ok {
+		return false
+	}
+	sa, _ := reachingStore(la)
+	sb, okb := reachingStore(lb)
+	return okb && sa == sb
+}
+
+// reachingStore: the one assignment of a local variable that a load can see: it dominates the load and no other
+// assignment of the variable can run between it and the load.
+func reachingStore(ld *ssa.UnOp) (*ssa.Store, bool) {
+	cell := cellOf(ld.X)
+	if cell == nil {
+		return nil, false
+	}
+	var stores []*ssa.Store
+	for _, f := range append([]*ssa.Function{cell.Parent()}, allAnon(cell.Parent())...) {
+		for _, b := range f.Blocks {
+			for _, in := range b.Instrs {
+				if st, ok := in.(*ssa.Store); ok && cellOf(st.Addr) == cell {
+					stores = append(stores, st)
+				}
+			}
+		}
+	}
+	before := func(x, y ssa.Instruction) bool { // x strictly before y in one block
+		for _, in := range x.Block().Instrs {
+			if in == x {
+				return true
+			}
+			if in == y {
+				return false
+			}
+		}
+		return false
+	}
+	var best *ssa.Store
+	for _, st := range stores {
+		if st.Parent() != ld.Parent() {
+			return nil, false // assigned by a closure: any time
+		}
+		dom := (st.Block() == ld.Block() && before(st, ld)) || (st.Block() != ld.Block() && st.Block().Dominates(ld.Block()))
+		if !dom {
+			// must not be able to reach the load
+			if st.Block() == ld.Block() {
+				if before(st, ld) {
+					return nil, false
+				}
+				// after the load in the same block: reaches it only around a loop
+				if blockReaches(st.Block(), ld.Block(), false) {
+					return nil, false
+				}
+				continue
+			}
+			if blockReaches(st.Block(), ld.Block(), false) {
+				return nil, false
+			}
+			continue
+		}
+		if best == nil || best.Block().Dominates(st.Block()) && (best.Block() != st.Block() || before(best, st)) {
+			best = st
+		}
+	}
+	if best == nil {
+		return nil, false
+	}
+	// every dominating store other than best must precede best
+	for _, st := range stores {
+		if st == best {
+			continue
+		}
+		dom := (st.Block() == ld.Block() && before(st, ld)) || (st.Block() != ld.Block() && st.Block().Dominates(ld.Block()))
+		if dom && !((st.Block() == best.Block() && before(st, best)) || (st.Block() != best.Block() && st.Block().Dominates(best.Block()))) {
+			return nil, false
+		}
+	}
+	return best, true
+}
+
+// funcNameDerived: v is the name of a Go function as the runtime reports it (package-qualified), possibly
+// case-folded or trimmed, directly or through a local variable.
+func (a *Audit) funcNameDerived(v ssa.Value, depth int) bool {
+	if depth > 8 {
+		return false
+	}
+	switch x := v.(type) {
+	case *ssa.Call:
+		if c := x.Call.StaticCallee(); c != nil {
+			if c.Name() == "Name" && fnPkgPath(c) == "runtime" {
+				return true
+			}
+			if isStringsFn(x, "ToLower", "ToUpper", "TrimSpace", "Clone") {
+				return a.funcNameDerived(x.Call.Args[0], depth+1)
+			}
+		}
+	case *ssa.UnOp:
+		if x.Op == token.MUL {
+			if st, ok := reachingStore(x); ok {
+				return a.funcNameDerived(st.Val, depth+1)
+			}
+		}
+	case *ssa.Phi:
+		for _, op := range x.Edges {
+			if !a.funcNameDerived(op, depth+1) {
+				return false
+			}
+		}
+		return len(x.Edges) > 0
+	}
+	return false
 }
